@@ -5,6 +5,6 @@ CONSTANTS Normal = {"n1", "n2"}
           Empty = {"nE"}
           Keys = {1, 2}
           EncodeOn = TRUE
-          D = 5
-          E = 5
+          D = 4
+          E = 4
 INVARIANTS Emit ResultsAgree Refines Confined
